@@ -32,6 +32,9 @@ def setup(extra=()):
         sys.path.insert(0, REPO)
     from binja_test_mocks import binja_api  # noqa: F401
     from . import shims
+    if os.environ.get("SYMX_NO_CONSTMERGE") != "1":
+        from . import astpass
+        astpass.load_module_transformed("binja_test_mocks.eval_llil", [astpass.ConstMerge()])
     mods = []
     for name in list(SHIMMED) + list(extra):
         m = importlib.import_module(name)
